@@ -310,7 +310,7 @@ def _correspondence_main(ctx):
     with np.errstate(all='ignore'):
         run(ops, impl, 1e-14, 'f', key='wtgme')
     # element-probing measurements: exact Gaussian-integer tables (eq9: sqrt2 x entry; the returned projectors are the outer products)
-    for kind, dims in [('eq8', [1, 2, 3, 4, 5, 8]), ('eq9', [2, 3, 4, 5, 6, 8, 10, 12, 18, 24])]:   # the theorem eprobe9_unitary covers every even dim: tie beyond the former decide range too
+    for kind, dims in [('eq8', [1, 2, 3, 4, 5, 8]), ('eq9', [2, 3, 4, 5, 6, 8, 10, 12, 18, 30, 48])]:   # the theorem eprobe9_unitary covers every even dim: tie beyond the former decide range too
         for dim in dims:
             op = f'C18 eprobe {kind} {dim}'
             r = guarded(lambda: np.asarray(numqi.unique_determine.get_element_probing_POVM(kind, dim)))
